@@ -18,6 +18,7 @@ type VrtFakeQuartz struct {
 	Deleted  []string
 	Cleared  int
 	Stopped  bool
+	Refused  int
 }
 
 func VrtNewFakeQuartz() *VrtFakeQuartz {
@@ -30,9 +31,13 @@ func (f *VrtFakeQuartz) Start(context.Context) {}
 func (f *VrtFakeQuartz) IsStarted() bool       { return true }
 func (f *VrtFakeQuartz) ScheduleJob(jobDetail *quartz.JobDetail, trigger quartz.Trigger) error {
 	k := jobDetail.JobKey().Name()
-	if _, dup := f.Jobs[k]; !dup {
-		f.Order = append(f.Order, k)
+	if _, dup := f.Jobs[k]; dup {
+		// go-quartz contract (queue.Push without the Replace option): a key that
+		// is still scheduled is refused and the earlier job stays as it is
+		f.Refused++
+		return quartz.ErrJobAlreadyExists
 	}
+	f.Order = append(f.Order, k)
 	f.Jobs[k] = jobDetail
 	f.Triggers[k] = trigger
 	return nil
